@@ -158,3 +158,82 @@ Definition slice_deref (s : option slice) (idx : list Z) : result Z :=
           end
       end
   end.
+
+(* ---- the layout of range vectors -------------------------------------------------------------
+   A range value is a gc vector of 2*dims ints [from0; to0; from1; to1; ...] (MK_RANGE writes
+   them in that order; a slice is the 2-vector (array, range vector)).  Every handler runs
+     for (d = 0; d < dims; d++) { from = vec[d * 2]; to = vec[d * 2 + 1]; ... }
+   with dims taken from the instruction (code->mk_slice.dims / code->array_deref.dims), and
+   SLICE_RANGE / SLICE_SLICE write res[2 * d], res[2 * d + 1].  The models above work on the list
+   of pairs; here the layout is explicit and the handlers are restated on flat vectors.
+   SliceRangeProofs.v: the two views coincide (vec_layout, vec_dims_flatten, *_vec_spec). *)
+Fixpoint flatten (r : range) : list Z :=
+  match r with
+  | [] => []
+  | (a, b) :: t => a :: b :: flatten t
+  end.
+
+Fixpoint unflatten (v : list Z) : range :=
+  match v with
+  | a :: b :: t => (a, b) :: unflatten t
+  | _ => []
+  end.
+
+(* gc_get_int (gc_get_vec (vec, k)) *)
+Definition vec_get (v : list Z) (k : nat) : Z := nth k v 0.
+
+(* what the loop `for d in [d0, d0 + n)` reads: (vec[d*2], vec[d*2+1]) per dimension *)
+Fixpoint vec_dims_from (n d : nat) (v : list Z) : range :=
+  match n with
+  | O => []
+  | S n' => (vec_get v (d * 2), vec_get v (d * 2 + 1)) :: vec_dims_from n' (S d) v
+  end.
+
+Definition vec_dims (dims : nat) (v : list Z) : range := vec_dims_from dims 0 v.
+
+Definition lift_flatten (x : result range) : result (list Z) :=
+  match x with Ok r => Ok (flatten r) | Exc e => Exc e end.
+
+(* SLICE_RANGE on vectors: dims = code->mk_slice.dims *)
+Definition slice_range_vec (dims : nat) (v1 v2 : option (list Z)) : result (list Z) :=
+  match v1, v2 with
+  | Some v1, Some v2 => lift_flatten (compose_ranges (vec_dims dims v1) (vec_dims dims v2))
+  | _, _ => Exc NilPointer
+  end.
+
+(* a slice value on vectors: (array, range vector) *)
+Record slice_v := { slv_arr : option dimv; slv_range : option (list Z) }.
+
+(* SLICE_SLICE on vectors *)
+Definition slice_slice_vec (dims : nat) (s : option slice_v) (v2 : option (list Z)) : result slice_v :=
+  match s, v2 with
+  | Some s, Some v2 =>
+      match slv_range s with
+      | None => Exc NilPointer
+      | Some v1 =>
+          match compose_ranges (vec_dims dims v1) (vec_dims dims v2) with
+          | Ok r => Ok {| slv_arr := slv_arr s; slv_range := Some (flatten r) |}
+          | Exc e => Exc e
+          end
+      end
+  | _, _ => Exc NilPointer
+  end.
+
+(* RANGE_DEREF on a vector: dims = code->array_deref.dims *)
+Definition range_deref_vec (dims : nat) (v : option (list Z)) (idx : list Z) : result (list Z) :=
+  match v with
+  | None => Exc NilPointer
+  | Some v => range_deref_loop 0 (vec_dims dims v) idx
+  end.
+
+(* SLICE_DEREF on a slice holding a vector *)
+Definition slice_deref_vec (dims : nat) (s : option slice_v) (idx : list Z) : result Z :=
+  match s with
+  | None => slice_deref None idx
+  | Some s =>
+      slice_deref (Some {| sl_arr := slv_arr s;
+                           sl_range := match slv_range s with
+                                       | Some v => Some (vec_dims dims v)
+                                       | None => None
+                                       end |}) idx
+  end.
